@@ -70,6 +70,17 @@ func runC16(c *Ctx) {
 	c16MigrateCoverage(c)
 	c16PathsRerooted(c)
 	c16WriterIndependent(c)
+	c16TablesInverse(c)
+	c16HoistCountsAll(c)
+	{
+		var pkgs []*packages.Package
+		for _, rel := range []string{"private/bufpkg/bufconfig", "private/buf/bufmigrate", "private/buf/bufgen", "private/buf/bufworkspace"} {
+			if q := c.P.Pkg(rel); q != nil {
+				pkgs = append(pkgs, q)
+			}
+		}
+		ruleArgsNamesake(c, "ARGS-NAMESAKE", pkgs, 3)
+	}
 	pk := p.Pkg("private/bufpkg/bufconfig")
 	if pk == nil {
 		c.Fail("R-FIELDCOV", "anchor", token.NoPos, "bufconfig not found")
